@@ -32,6 +32,7 @@ import TableauVerif.Model.EnumLit
 import TableauVerif.Spec.C03Enum
 import TableauVerif.Spec.C20Dur
 import TableauVerif.Model.Importer
+import TableauVerif.Model.Incremental
 import TableauVerif.Model.Rfc3339
 import TableauVerif.Model.CSV
 import TableauVerif.Spec.Grid
@@ -442,6 +443,33 @@ def c18 (fn : String) (a : List String) : Option String := do
   | "o.c18.incr", [_, _, obs] => some (if obs == "same" then "holds" else "FAILS")
   | _, _ => none
 
+def decPBooks? (s : String) : Option (List Incremental.PBook) :=
+  if s.isEmpty then some [] else (s.splitOn ";").mapM fun b =>
+    match b.splitOn "|" with
+    | [n, srcs, outs] => do pure { name := (← decStr? n), sources := (← decStrList? srcs), outputs := (← decStrList? outs) }
+    | _ => none
+
+def c18rel (fn : String) (a : List String) : Option String := do
+  match fn, a with
+  | "c18.related", [_seed, path, books] =>
+    let bs ← decPBooks? books
+    let p ← decStr? path
+    if !(Incremental.unknown bs [p]).isEmpty then some "err unknown-workbook" else
+    let files := sortStrs ((Incremental.genWorkbook bs [p]).flatMap (·.outputs)).eraseDups
+    some ("files " ++ ",".intercalate (files.map encStr))
+  | "o.c18.related", [_seed, path, books, obs] =>
+    -- judged against the statement directly: a conf file is (re)written iff its primary book reads the named workbook
+    let bs ← decPBooks? books
+    let p ← decStr? path
+    let reads (b : Incremental.PBook) : Bool := b.name == p || b.sources.contains p
+    if !bs.any reads then some (if obs.startsWith "err" then "holds" else "FAILS") else
+    if !obs.startsWith "files " then some "FAILS" else
+    let got ← decStrList? (obs.drop 6).toString
+    let must := (bs.filter reads).flatMap (·.outputs)
+    let mustNot := (bs.filter (fun b => !reads b)).flatMap (·.outputs)
+    some (if must.all got.contains && !(mustNot.any fun f => got.contains f && !must.contains f) then "holds" else "FAILS")
+  | _, _ => none
+
 def imp (fn : String) (a : List String) : Option String := do
   match fn, a with
   | "imp.grid", [style, g] =>
@@ -465,6 +493,7 @@ def dispatch (line : String) : String :=
   | fn :: args =>
     let r :=
       if fn.startsWith "imp." || fn.startsWith "o.imp." then imp fn args
+      else if fn.startsWith "c18.related" || fn.startsWith "o.c18.related" then c18rel fn args
       else if fn.startsWith "c14." || fn.startsWith "o.c14." then c14 fn args
       else if fn.startsWith "c07.corrupt" || fn.startsWith "o.c07.corrupt" || fn.startsWith "w.c07." || fn.startsWith "c07.skip" || fn.startsWith "o.c07.skip" then tp fn args
       else if fn.startsWith "c07.book" || fn.startsWith "o.c07.book" then c11 fn args
